@@ -23,10 +23,10 @@ ASSUMPTIONS = [
     "debug-profile semantics (overflow checks on), the profile the pinned test suite is built with",
     "alloc::fmt::format stubbed to return an empty String in harnesses whose error path formats a message (format! is intractable for CBMC)",
     "float primitives backed by libm intrinsics that CBMC does not model are listed under skipped, not verified",
-    "array/userdata/IO/regex/random primitives, unpack_and_call and call_thunk_top error propagation are not under contract",
+    "userdata/regex/most IO primitives and unpack_and_call are not under contract; of call_thunk_top only the error closure, of return_future only the statements after the future is ready (toplevel unit: Context/Stack projected on frame list + lock flag, reset_stack's contract assumed there and proved in the stack unit)",
     "termination not proved by Kani",
 ]
-NOT_UNDER_CONTRACT = ["primitives taking arrays, userdata, IO, regex, random", "api::function::unpack_and_call", "Thread::call_thunk_top error propagation", "memory reclaim after failure"]
+NOT_UNDER_CONTRACT = ["primitives taking arrays, userdata, IO, regex, random", "api::function::unpack_and_call", "the callers of call_thunk_top (which entry point a host API uses)", "memory reclaim after failure"]
 
 # entries whose callee CBMC cannot model (libm / float formatting / parsing loops); reported as skipped
 SKIP = {
@@ -220,6 +220,10 @@ STATIC = [
          clause="std.io read_file: for every count (a negative Int arrives as a huge usize) the buffer allocation never hits Vec's documented capacity-overflow panic"),
     dict(engine="verus", unit="random", function="gen_int_range", name="C06/random/gen_int_range", source="src/std_lib/random.rs::gen_int_range",
          clause="std.random gen_int_range never reaches the documented panic of rand's random_range (empty range) for any pair of Ints"),
+    dict(engine="verus", unit="toplevel", function="call_thunk_top::on_error", name="C06/thread/call_thunk_top_on_error", source="vm/src/thread.rs::ThreadInternal::call_thunk_top (body of the or_else closure)",
+         clause="whatever kind of error ends a top-level evaluation, the frames above the level recorded before it are removed (or reset_stack itself gave up); the evaluation's own error is reported, a panic with its stack trace"),
+    dict(engine="verus", unit="toplevel", function="return_future::ready", name="C06/thread/return_future_ready", source="vm/src/thread.rs::Context::return_future (poll closure, statements after the future is ready)",
+         clause="the frame of an asynchronous primitive is unlocked on every path, also when pushing its (error) result fails, so that the error propagates and the stack can be reset"),
     v("stack", "reset_stack", "resetting the stack after a failed evaluation removes exactly the frames above `level`, top first, never one below it, and touches nothing else of the frame list", "vm/src/thread.rs::reset_stack"),
     dict(engine="verus", unit="stack", function="reset_stack_values", name="C06/thread/reset_stack_values", source="vm/src/thread.rs::reset_stack",
          clause="the values that belonged to the removed frames are removed with them (the stack used by the failed run is reclaimed)"),
